@@ -320,7 +320,7 @@ fn invocation_forms(rep: &mut Report, root: &std::path::Path) {
             if r0.code != Some(0) {
                 acc.count("note:reference-invocation-failed", 1);
             }
-            for form in 0..6u8 {
+            for form in 0..9u8 {
                 for (ename, evars, threads) in &envs {
                     if form == 0 && *ename == "plain" {
                         continue;
